@@ -162,7 +162,10 @@ def walk_nodes(node):
 
 # --------------------------------------------------------------------------- rendering
 
-Rendered = collections.namedtuple("Rendered", "decls leaves ctype")
+Rendered = collections.namedtuple("Rendered", "decls leaves ctype pre realize", defaults=((), None))
+# pre   : [(pack, text)] declaration history: an earlier cdef() (made with that packing option) in which
+#         the tag is first mentioned without a body (node["hist"] = {"form", "pack"}); realize: a C type
+#         to realise in the backend between the two cdef() calls (form "realized"), or None
 # decls : [(pack, text)] top-level declarations in dependency order (text valid as cdef and as C)
 # leaves: [(name, is_bitfield, width)] named leaf members in hoisted order
 # ctype : "struct S12"
@@ -226,7 +229,21 @@ def render(node, name):
     counter = [0]
     body = r.body(node, counter, node["pack"], leaves)
     r.decls.append((node["pack"], "%s %s %s;" % (node["kind"], name, body)))
-    return Rendered(r.decls, leaves, "%s %s" % (node["kind"], name))
+    ctype = "%s %s" % (node["kind"], name)
+    pre, realize = (), None
+    h = node.get("hist")
+    if h:
+        form = h["form"]
+        if form == "typedef":
+            text = "typedef %s %s_t;" % (ctype, name)
+        elif form == "ptr":
+            text = "%s; struct %s_holder { char a; %s *b; };" % (ctype, name, ctype)
+        else:
+            text = "%s;" % ctype
+        pre = ((h["pack"], text),)
+        if form == "realized":
+            realize = ctype + " **"
+    return Rendered(r.decls, leaves, ctype, pre, realize)
 
 
 def c_text(decls):
@@ -275,6 +292,8 @@ static void bits(const void *p, size_t n) {
 }
 """]
     for ident, r in items:
+        if r.pre:
+            out.append(c_text(r.pre))          # the first mention, under ITS packing: gcc must not care
         out.append(c_text(r.decls))
         fn = ["static void probe_%s(void) {" % ident,
               "  %s x;" % r.ctype,
@@ -378,6 +397,11 @@ def _cffi_chunk(chunk):
     def attempt(sub):
         ffi = cffi.FFI()
         rs = [(ident, render(node, "S" + ident)) for ident, node in sub]
+        for _i, r in rs:                       # declaration history: first mentions in cdef() calls of their own
+            if r.pre:
+                cdef_all(ffi, list(r.pre))
+                if r.realize:
+                    ffi.new(r.realize)
         decls = [d for _i, r in rs for d in r.decls]
         cdef_all(ffi, decls)
         for ident, r in rs:
